@@ -168,8 +168,17 @@ def force_max(s):
 class C01(Property):
     id = "C01"
     title = "flatten() output rebuilds the same element tree through from_flat()"
-    proof_module = "Proofs.C01"
-    theorems = []
+    proof_module = "Proofs.C01Examples"
+    theorems = [
+        "Flatland.Flat.Proofs.roundtrip",
+        "Flatland.Flat.Proofs.roundtrip_flatten",
+        "Flatland.Flat.Proofs.roundtrip_second",
+        "Flatland.Flat.Proofs.rt_all",
+        "Flatland.Flat.Proofs.field_roundtrip",
+        "Flatland.Flat.Proofs.rt_list",
+        "Flatland.Flat.Proofs.sepSafe_single_char",
+        "Flatland.Flat.Proofs.roundtrip_sparse_fails",
+    ]
     trusted_base = [
         "scalar set(text) and compound text are inputs of the flat model (env tables from the real classes in isolation; C04/C18)",
         "the populated element's state is extracted from the real element after set(); the model recomputes flatten, from_flat and both round trips",
